@@ -53,6 +53,51 @@ func runDVB(line []byte, rec *recorder) {
 		}
 		tu := t.UTC()
 		rec.ev(M{"ev": "dec", "b": ints(b), "err": errStr(err), "day": int(day), "sod": int(sod), "y": tu.Year(), "m": int(tu.Month()), "d": tu.Day()})
+		// the same five bytes where a stream carries them: the start_time of an EIT event and the UTC_time of a TOT, through the section parser
+		mjd := int(b[0])<<8 | int(b[1])
+		if mjd == 15079 || mjd == 65535 || mjd == 40587 || mjd%97 == 0 {
+			for _, via := range []string{"eit", "tot"} {
+				var sec []byte
+				if via == "eit" {
+					body := []byte{0x00, 0x01, 0xc1, 0, 0, 0x00, 0x02, 0x00, 0x03, 0, 0x4e, 0x00, 0x07}
+					body = append(append(body, b...), 0x01, 0x30, 0x00, 0x80, 0x00)
+					sec = append([]byte{0x4e, 0xf0 | byte((len(body)+4)>>8), byte(len(body) + 4)}, body...)
+				} else {
+					body := append(append([]byte(nil), b...), 0xf0, 0x00)
+					sec = append([]byte{0x73, 0x70 | byte((len(body)+4)>>8), byte(len(body) + 4)}, body...)
+				}
+				c := astits.VerifComputeCRC32(sec)
+				sec = append(sec, byte(c>>24), byte(c>>16), byte(c>>8), byte(c))
+				var d *astits.PSIData
+				var perr error
+				if p := safeCall(func() { d, perr = astits.VerifParsePSIData(append([]byte{0}, sec...)) }); p != nil {
+					rec.ev(M{"ev": "panic", "what": fmt.Sprintf("parsePSIData(%s with time %v): %v", via, b, p)})
+					continue
+				}
+				var tt time.Time
+				found := false
+				if perr == nil && d != nil && len(d.Sections) == 1 && d.Sections[0].Syntax != nil && d.Sections[0].Syntax.Data != nil {
+					sd := d.Sections[0].Syntax.Data
+					if via == "eit" && sd.EIT != nil && len(sd.EIT.Events) == 1 {
+						tt, found = sd.EIT.Events[0].StartTime, true
+					}
+					if via == "tot" && sd.TOT != nil {
+						tt, found = sd.TOT.UTCTime, true
+					}
+				}
+				if !found && perr == nil {
+					perr = fmt.Errorf("no %s decoded", via)
+				}
+				u2 := tt.Unix()
+				day2, sod2 := u2/86400, u2%86400
+				if sod2 < 0 {
+					sod2 += 86400
+					day2--
+				}
+				t2 := tt.UTC()
+				rec.ev(M{"ev": "dec", "via": via, "b": ints(b), "err": errStr(perr), "day": int(day2), "sod": int(sod2), "y": t2.Year(), "m": int(t2.Month()), "d": t2.Day()})
+			}
+		}
 	}
 	subsec := []int{0, 0, 0, 1, 499999999, 500000000, 999999999}
 	enc := func(y, m, d, h, mi, s int) {
